@@ -1,0 +1,103 @@
+//go:build verif
+
+package tbtc
+
+import (
+	"context"
+	"math/big"
+
+	"github.com/keep-network/keep-core/pkg/net"
+	"github.com/keep-network/keep-core/pkg/protocol/group"
+	"github.com/keep-network/keep-core/pkg/tecdsa"
+	"github.com/keep-network/keep-core/pkg/tecdsa/signing"
+)
+
+// Verification hook (build tag verif): re-exports existing identifiers only.
+
+// VerifC35DoneCheck wraps the unexported signingDoneCheck.
+type VerifC35DoneCheck struct{ c *signingDoneCheck }
+
+func VerifC35NewDoneCheck(
+	groupSize int,
+	broadcastChannel net.BroadcastChannel,
+	membershipValidator *group.MembershipValidator,
+) *VerifC35DoneCheck {
+	return &VerifC35DoneCheck{
+		c: newSigningDoneCheck(groupSize, broadcastChannel, membershipValidator),
+	}
+}
+
+func (v *VerifC35DoneCheck) VerifC35Listen(
+	ctx context.Context,
+	message *big.Int,
+	attemptNumber uint64,
+	attemptTimeoutBlock uint64,
+	attemptMembersIndexes []group.MemberIndex,
+) {
+	v.c.listen(
+		ctx,
+		message,
+		attemptNumber,
+		attemptTimeoutBlock,
+		attemptMembersIndexes,
+	)
+}
+
+func (v *VerifC35DoneCheck) VerifC35SignalDone(
+	ctx context.Context,
+	memberIndex group.MemberIndex,
+	message *big.Int,
+	attemptNumber uint64,
+	signature *tecdsa.Signature,
+	endBlock uint64,
+) error {
+	return v.c.signalDone(
+		ctx,
+		memberIndex,
+		message,
+		attemptNumber,
+		&signing.Result{Signature: signature},
+		endBlock,
+	)
+}
+
+// VerifC35WaitUntilAllDone returns the signature of the result (nil if there
+// is no result), the end block, the error and whether the error is
+// errWaitDoneTimedOut.
+func (v *VerifC35DoneCheck) VerifC35WaitUntilAllDone(ctx context.Context) (
+	*tecdsa.Signature,
+	uint64,
+	error,
+	bool,
+) {
+	result, endBlock, err := v.c.waitUntilAllDone(ctx)
+	if result == nil {
+		return nil, endBlock, err, err == errWaitDoneTimedOut
+	}
+	return result.Signature, endBlock, err, err == errWaitDoneTimedOut
+}
+
+// VerifC35DoneCount reads the number of recorded confirmations while
+// holding the mutex that guards them.
+func (v *VerifC35DoneCheck) VerifC35DoneCount() int {
+	v.c.doneSignersMutex.Lock()
+	defer v.c.doneSignersMutex.Unlock()
+	return len(v.c.doneSigners)
+}
+
+// VerifC35NewDoneMessage builds the unexported signingDoneMessage.
+func VerifC35NewDoneMessage(
+	senderID group.MemberIndex,
+	message *big.Int,
+	attemptNumber uint64,
+	signature *tecdsa.Signature,
+	endBlock uint64,
+) net.TaggedMarshaler {
+	return &signingDoneMessage{
+		senderID:      senderID,
+		message:       message,
+		attemptNumber: attemptNumber,
+		signature:     signature,
+		endBlock:      endBlock,
+	}
+}
